@@ -123,14 +123,19 @@ def inspect_phc(
     }
 
     definition_info = _parse_phc_def(chosen_definition)
+    try:
+        parsed_params = {
+            name: param.type(params[param.param.name])
+            for name, param in definition_info.parameters.items()
+        }
+    except (KeyError, ValueError):
+        # a parameter of the definition is missing, or its value is not of the declared type
+        return None
     return chosen_definition(
         id=id_,
         salt=salt,
         hash=hash,
-        **{
-            name: param.type(params[param.param.name])
-            for name, param in definition_info.parameters.items()
-        },
+        **parsed_params,
     )
 
 
